@@ -20,6 +20,7 @@ META = {
     "trusted_base": ["imbl::Vector::{append, clear, push_*, pop_*, insert, set, remove, truncate} behave as documented and panic on out-of-range insert/set/remove", "rustc MIR construction", "parametricity of generic Rust code"],
     "assumptions": [],
 }
+META["explanation"] += ' R18.2 also requires that no path through apply bypasses the dispatch on the variant (an early return drops the diff).'
 
 ADAPTERS = r"Iterator>?::(rev|skip|take|step_by|filter|filter_map|skip_while|take_while|chain|zip|cycle|flat_map|flatten|scan|peekable|enumerate|inspect|dedup)$"
 
